@@ -269,6 +269,9 @@ def main():
                             rp, err=err), rp)
                 _reset(qr)
 
+    # ------------------------------------- SaveLoad behaviours -> real code
+    replay_behaviours(ck, qr, numpy, tmp)
+
     # ------------------------------------------------------- export matrix
     class Holder(qr.DFunction):
         pass
@@ -328,6 +331,199 @@ def main():
               "3x3 objects only when dimensions agree; otherwise the load "
               "merely happens while some context is open")
     return ck.finish()
+
+
+def replay_behaviours(ck, qr, numpy, tmp):
+    """tlc -simulate behaviours of SaveLoad (create / access / protect / enter
+    / exit / raise / catch / Save / Load) executed on real managed objects.
+    After every action the projection of the real manager and objects is
+    compared with the spec state, and the stored data of every object
+    (loaded ones included) must be its physical operator presented in the
+    basis its tag names."""
+    from harness import tlaparse
+    from checks.c04 import projection, _relerr, _reset_manager
+    from quantarhei.core.managers import Manager
+    man = Manager()
+    rng = numpy.random.RandomState(ck.seed + 18)
+    nsim = 20000 if ck.thorough else 3000
+    d = tempfile.mkdtemp(prefix="c18sim_")
+    try:
+        pref = os.path.join(d, "tr")
+        ck.tlc("SaveLoad", "SaveLoad_sim.cfg",
+               simulate="file=%s,num=%d" % (pref, nsim), depth=15, workers=1,
+               seed=ck.seed + 5, count=False)
+        behs = tlaparse.load_behaviours(pref, must_contain="<Load ")
+    finally:
+        shutil.rmtree(d, ignore_errors=True)
+    if len(behs) < nsim // 20:
+        raise MachineryFailure("too few SaveLoad behaviours with a Load")
+    fn = os.path.join(tmp, "replay.qrp")
+    N = 3
+
+    class Boom(Exception):
+        pass
+
+    def herm():
+        A = rng.randn(N, N) + (1j * rng.randn(N, N) if rng.rand() < 0.5
+                               else 0.0)
+        return (A + A.conj().T) / 2
+
+    def total(k):
+        """S_1 ... S_k of the real manager"""
+        T = numpy.eye(N, dtype=complex)
+        for j in range(1, k + 1):
+            T = T.dot(numpy.array(man.basis_transformations[j]))
+        return T
+
+    def present(A0, k):
+        T = total(k)
+        return numpy.linalg.inv(T).dot(A0).dot(T)
+
+    nsaves = nloads = ndeep = 0
+    for bi, beh in enumerate(behs):
+        acts = [a for a, _ in beh[1:]]
+        if "Load" not in acts:
+            continue
+        objs, phys, kinds = {}, {}, {}
+        cms, hist = [], []
+        blob_phys = blob_kind = None
+        blob_tag = 0
+        failed = False
+
+        def violation(clause, why):
+            ck.violation(clause, "slreplay:" + clause,
+                         dict(history=hist, why=why),
+                         dict(kind="behaviour", history=hist, behaviour=bi,
+                              seed=ck.seed))
+        try:
+            prev = beh[0][1]
+            for act, st in beh[1:]:
+                args = st["_args"]
+                if act[0] == "S" and act != "Save":
+                    act = act[1:]
+                if act == "Create":
+                    o = args[0]
+                    # a loaded object may be used as a context operator,
+                    # so everything that can be saved is self-adjoint
+                    kind = "ham" if o in ("h", "a") else "rdm"
+                    if kind == "ham":
+                        A0 = herm()
+                    elif kind == "op":
+                        A0 = rng.randn(N, N) + 1j * rng.randn(N, N)
+                    else:
+                        v = rng.randn(N, N) + 1j * rng.randn(N, N)
+                        A0 = v.dot(v.conj().T)
+                        A0 /= numpy.trace(A0)
+                    dd = present(A0, prev["depth"])
+                    if kind == "ham":
+                        obj = qr.Hamiltonian(data=dd.copy())
+                    elif kind == "op":
+                        obj = qr.qm.Operator(data=dd.copy())
+                    else:
+                        obj = qr.ReducedDensityMatrix(data=dd.copy())
+                    objs[o] = dict(obj=obj)
+                    phys[o], kinds[o] = A0, kind
+                    hist.append(["create", o, kind])
+                elif act == "Access":
+                    objs[args[0]]["obj"].data
+                    hist.append(["read", args[0]])
+                elif act == "Protect":
+                    objs[args[0]]["obj"].protect_basis()
+                    hist.append(["protect", args[0]])
+                elif act == "Unprotect":
+                    objs[args[0]]["obj"].unprotect_basis()
+                    hist.append(["unprotect", args[0]])
+                elif act == "Enter":
+                    cm = qr.eigenbasis_of(objs[args[0]]["obj"])
+                    cm.__enter__()
+                    cms.append(cm)
+                    hist.append(["enter", args[0]])
+                elif act == "Exit":
+                    cm = cms.pop()
+                    if prev["exc"]:
+                        cm.__exit__(Boom, Boom(), None)
+                    else:
+                        cm.__exit__(None, None, None)
+                    hist.append(["exit", bool(prev["exc"])])
+                elif act in ("Raise", "Catch"):
+                    hist.append([act.lower()])
+                elif act == "Save":
+                    o = args[0]
+                    objs[o]["obj"].save(fn)
+                    blob_phys, blob_kind = phys[o], kinds[o]
+                    blob_tag = st["tag"][o]
+                    nsaves += 1
+                    hist.append(["save", o, "depth=%d" % st["depth"],
+                                 "tag=%d" % st["tag"][o]])
+                elif act == "Load":
+                    t = st["target"]
+                    objs[t] = dict(obj=qr.load_parcel(fn))
+                    phys[t], kinds[t] = blob_phys, blob_kind
+                    nloads += 1
+                    ndeep += 1 if blob_tag >= 2 else 0
+                    hist.append(["load", t, "depth=%d" % st["depth"]])
+                else:
+                    raise MachineryFailure("unknown action " + act)
+
+                proj = projection(man, objs)
+                want = dict(stack=list(range(st["depth"] + 1)),
+                            ntrans=st["depth"] + 1, flag=bool(st["flag"]),
+                            registered={k + 1: sorted(st["registered"][k])
+                                        for k in range(st["depth"])},
+                            tags={o: st["tag"][o] for o in objs},
+                            prot={o: bool(st["prot"][o]) for o in objs})
+                if proj != want:
+                    diff = {k: (proj[k], want[k]) for k in want
+                            if proj[k] != want[k]}
+                    if act in ("Save", "Load"):
+                        violation("save-load-leaves-manager",
+                                  "after %s: %r" % (act, diff))
+                    else:
+                        ck.model_drift("SaveLoad replay: %r after %r" %
+                                       (diff, hist))
+                    failed = True
+                    break
+                for o, e in objs.items():
+                    if not st["consistent"][o] or st["prot"][o]:
+                        continue
+                    got = numpy.array(e["obj"]._data)
+                    err = _relerr(got, present(phys[o], st["tag"][o]))
+                    if err > 1e-9:
+                        loaded = o == st["target"] and "Load" in [
+                            h[0].capitalize() for h in hist]
+                        violation("loaded-object-data" if loaded else
+                                  "representation",
+                                  "object %s: stored data are not its "
+                                  "operator in the basis of its tag (rel "
+                                  "err %.2e)" % (o, err))
+                        failed = True
+                        break
+                if failed:
+                    break
+                prev = st
+        except MachineryFailure:
+            raise
+        except Exception as e:
+            import traceback
+            ck.violation("replay-exception", "slreplay:exception:%s" %
+                         type(e).__name__,
+                         dict(history=hist, tb=traceback.format_exc()[-500:]),
+                         dict(kind="behaviour", history=hist, behaviour=bi))
+        finally:
+            while cms:
+                try:
+                    cms.pop().__exit__(None, None, None)
+                except Exception:
+                    pass
+            _reset_manager(man)
+        ck.case("saveload-behaviour", (bi, tuple(map(tuple, hist))),
+                sample=dict(history=hist))
+        ck.traces_validated += 1
+    if nloads < 20 or ndeep < 3:
+        raise MachineryFailure("SaveLoad replay vacuous: %d loads, %d of "
+                               "objects saved at depth >= 2" % (nloads, ndeep))
+    ck.note("SaveLoad replay: %d saves, %d loads, %d loads of objects saved "
+            "with basis tag >= 2" % (nsaves, nloads, ndeep))
 
 
 def _reset(qr):
